@@ -2251,7 +2251,14 @@ def _details_to_str(details, special=None):
         if content.content_type.type != "text":
             binary_attachments.append((key, content.content_type))
             continue
-        text = content.as_text().strip()
+        try:
+            text = content.as_text().strip()
+        except Exception:
+            # Claims to be text but does not decode (stray bytes, a charset
+            # Python does not know): list it with the binary attachments
+            # rather than lose the whole outcome over it.
+            binary_attachments.append((key, content.content_type))
+            continue
         if not text:
             empty_attachments.append(key)
             continue
